@@ -537,9 +537,18 @@ func offerG16(c *vh.Check, g *g16Case, e g16Edit) {
 		c.Fatal("reference verifier rejects a validity-preserving transformation (%s/%s %s)", g.Name, CurveID, e.name)
 	}
 	if !e.valid && want {
-		// a structured edit the reference accepts: the catalogue circuits determine their public
-		// inputs, so this can only be a reference/alphabet mistake or a real forgery; report it
-		c.Violation(fmt.Sprintf("g16:%s:%s:reference-accepts:%s", CurveID, g.Name, e.name), map[string]any{"curve": CurveID.String(), "circuit": g.Name, "edit": e.name})
+		// a combination of edits the textbook verifier accepts is a validity-preserving
+		// transformation (Groth16 proofs are malleable, e.g. (A,B,C) -> (-A,-B,C)); it must be a proof
+		// for the SAME public inputs — anything else would be a forgery of the reference itself
+		if len(e.pub) != len(g.pub[0]) {
+			c.Fatal("reference verifier accepts a witness of another length (%s/%s %s)", g.Name, CurveID, e.name)
+		}
+		for i := range e.pub {
+			if e.pub[i] != g.pub[0][i] {
+				c.Violation(fmt.Sprintf("g16:%s:%s:reference-accepts-other-public-input:%s", CurveID, g.Name, e.name), map[string]any{"curve": CurveID.String(), "circuit": g.Name, "edit": e.name})
+			}
+		}
+		c.Outcome("g16:malleated-but-valid")
 	}
 	for _, w := range ways {
 		p := e.proof
